@@ -106,7 +106,16 @@ def run_loader(sg, rep, case, hist, table, transform):
             return Xb * 1.0, yb * 1.0
     key0 = "loader:%s" % ("transform" if transform else "no-transform")
     try:
-        dl = DataLoader(X, y, bs, transform=T() if transform else None)
+        # the documented signature is DataLoader(X, y, batch_size, transform=None): keyword, positional and all-keyword calls
+        form = (n + bs + len(hist)) % 3
+        if not transform:
+            dl = DataLoader(X, y, bs) if form else DataLoader(X, y, bs, transform=None)
+        elif form == 0:
+            dl = DataLoader(X, y, bs, transform=T())
+        elif form == 1:
+            dl = DataLoader(X, y, bs, T())
+        else:
+            dl = DataLoader(X=X, y=y, batch_size=bs, transform=T())
     except Exception as e:  # noqa: BLE001
         return [(key0 + ":ctor-raised", "DataLoader(...) raised %s" % e)]
     it = None
